@@ -101,6 +101,12 @@ class PolySpec:
 def _declare(comp, spec, style):
     pat = spec.pattern()
     for (o, v), nz in pat.items():
+        if style == 'const':
+            # linear components only: constant partials declared once with rows/cols/val and never set again
+            P = spec.partials({n: np.ones(m['shape']) for n, m in list(spec.ins.items()) + list(spec.outs.items())})
+            d = P.get((o, v), {})
+            comp.declare_partials(o, v, rows=[r for r, c in nz], cols=[c for r, c in nz], val=[float(d.get(rc, 0)) for rc in nz])
+            continue
         if style in ('sparse', 'sparse_dup'):
             rows = [r for r, c in nz]
             cols = [c for r, c in nz]
@@ -117,6 +123,8 @@ def _declare(comp, spec, style):
 
 
 def _fill(comp, spec, style, vals, J, xp):
+    if style == 'const':
+        return
     P = spec.partials(vals)
     for (o, v), nz in comp._pat.items():
         d = P.get((o, v), {})
